@@ -609,8 +609,6 @@ func (env *Env) binary(e *ast.BinaryExpr) Term {
 				o = y
 			}
 			r = fmt.Sprintf("(= (i_tag %s) 0)", o.S)
-		case x.Sort == "Iface":
-			r = fmt.Sprintf("(or (and (= (i_tag %[1]s) 0) (= (i_tag %[2]s) 0)) (= %[1]s %[2]s))", x.S, y.S)
 		default:
 			r = fmt.Sprintf("(= %s %s)", x.S, y.S)
 		}
